@@ -283,19 +283,33 @@ func main() {
 	viol := map[string]*vk.Violation{}
 	capSet := map[string]bool{}
 	var crashes []string
+	unexplainedAbnormal := 0
 	for s, o := range outs {
-		if o.res == nil {
+		// a shard that ended abnormally (non-zero exit: a panic in the code under test
+		// unwinds through the recorder's deferred Finish, which still writes a PARTIAL
+		// result) is a crash even when a result file exists; what it found is merged
+		abnormal := o.err != nil
+		if o.res == nil || abnormal {
 			crashes = append(crashes, fmt.Sprintf("shard %d: %v\n%s", s, o.err, tail(o.stderr, 6000)))
+			explained := false
 			if cfg.CrashIsViolation {
 				if v := crashViolation(id, o.stderr); v != nil {
 					fp := v.Fingerprint()
 					if _, ok := viol[fp]; !ok {
 						viol[fp] = v
 					}
-					continue
+					explained = true
 				}
 			}
-			continue
+			if o.res == nil {
+				continue
+			}
+			merged.Exhaustive = false
+			capSet[fmt.Sprintf("a shard ended abnormally after %d evaluations", o.res.Evaluations)] = true
+			if !explained {
+				unexplainedAbnormal++
+				fmt.Fprintf(os.Stderr, "vcheck: shard %d ended abnormally: %v\n%s\n", s, o.err, tail(o.stderr, 6000))
+			}
 		}
 		r := o.res
 		merged.Evaluations += r.Evaluations
@@ -344,7 +358,7 @@ func main() {
 	infra := false
 	if len(crashes) > 0 {
 		// a crash that was not turned into a violation is an infrastructure failure
-		unexplained := 0
+		unexplained := unexplainedAbnormal
 		for s, o := range outs {
 			if o.res == nil && !(cfg.CrashIsViolation && crashViolation(id, o.stderr) != nil) {
 				unexplained++
